@@ -56,13 +56,16 @@ def make_fn(shape, pattern, future, T, name='f'):
         ann = {named[0]: 'T'}
     if pattern == 'all':
         ann = dict((n, 'T') for n in named)
-    ret = 'T' if pattern in ('ret', 'both', 'all') else None
+    if pattern == 'strlit':
+        # the annotation is a string literal that happens to spell a global: it denotes that string, eager or postponed
+        ann = dict((n, "'T'") for n in named[:1])
+    ret = 'T' if pattern in ('ret', 'both', 'all') else ("'T'" if pattern == 'strlit' else None)
     ns = {'__name__': 'vfc11', 'T': T}
     src = ('from __future__ import annotations\n' if future else '') + 'def %s(%s)%s:\n    pass\n' % (
         name, space.render(shape, None, ann), (' -> ' + ret) if ret else '')
     exec(compile(src, '<vf:c11>', 'exec'), ns)
     f = ns[name]
-    f._vf_T = T
+    f._vf_T = 'T' if pattern == 'strlit' else T
     return f
 
 
@@ -76,9 +79,37 @@ def render(sig, evaluated=True):
             lab(s.return_annotation))
 
 
+def _same(got, want):
+    return got is want or (isinstance(want, str) and type(got) is str and got == want)
+
+
+def evaluated_problems(sig):
+    """evaluated() reports, parameter by parameter, exactly what source_value() denotes (nothing more is evaluated)."""
+    probs = []
+    try:
+        ev = sig.evaluated()
+    except Exception as e:  # noqa
+        return ['evaluated() raises %s: %s' % (type(e).__name__, e)]
+    for p in sig.parameters.values():
+        try:
+            want = p.upgraded_annotation.source_value()
+        except Exception:  # noqa: reported by resolution_problems
+            continue
+        got = ev.parameters[p.name].annotation
+        if not _same(got, want):
+            probs.append('%s: evaluated() reports %r, source_value() denotes %r' % (p.name, got, want))
+    try:
+        want = sig.upgraded_return_annotation.source_value()
+        if not _same(ev.return_annotation, want):
+            probs.append('return: evaluated() reports %r, source_value() denotes %r' % (ev.return_annotation, want))
+    except Exception:  # noqa
+        pass
+    return probs
+
+
 def resolution_problems(sig, origin_of, ret_origin):
     """Every surviving annotation resolves to the object its spelling denotes in the defining function's globals."""
-    probs = []
+    probs = evaluated_problems(sig)
     for p in sig.parameters.values():
         if p.annotation is E:
             if p.upgraded_annotation.source_value() is not E:
@@ -87,19 +118,19 @@ def resolution_problems(sig, origin_of, ret_origin):
         f = origin_of(p.name)
         if f is None:
             continue
-        want = getattr(f, '_vf_T', None) if not isinstance(f, Obj) else f
+        want = getattr(f, '_vf_T', None) if not isinstance(f, (Obj, str)) else f
         try:
             got = p.upgraded_annotation.source_value()
         except Exception as e:  # noqa
             probs.append('%s: source_value() raises %s: %s' % (p.name, type(e).__name__, e))
             continue
-        if got is not want:
+        if not _same(got, want):
             probs.append('%s: source_value() is %r, the defining globals bind the spelling to %r' % (p.name, got, want))
     if sig.return_annotation is not E and ret_origin is not None:
-        want = getattr(ret_origin, '_vf_T', None) if not isinstance(ret_origin, Obj) else ret_origin
+        want = getattr(ret_origin, '_vf_T', None) if not isinstance(ret_origin, (Obj, str)) else ret_origin
         try:
             got = sig.upgraded_return_annotation.source_value()
-            if got is not want:
+            if not _same(got, want):
                 probs.append('return: source_value() is %r, expected %r' % (got, want))
         except Exception as e:  # noqa
             probs.append('return: source_value() raises %s: %s' % (type(e).__name__, e))
@@ -137,14 +168,16 @@ def eval_pair(o, i, pat_o, pat_i, shared, st, same_names):
                 continue
             case = {'op': opn, 'shapes': [space.to_json(o), space.to_json(i)], 'patterns': [pat_o, pat_i], 'shared': shared,
                     'mode': list(mode)}
-            if not same_names:
-                probs = resolution_problems(res, lambda n: f1 if n in names1 else f2, f1)
-                if probs:
-                    st.violation('annotation-resolves-outside-its-defining-context', case,
-                                 {'operation': opn, 'first': '%s def f1%s' % ('postponed' if mode[0] else 'eager', inspect.signature(f1)),
-                                  'second': '%s def f2%s' % ('postponed' if mode[1] else 'eager', inspect.signature(f2)),
-                                  'globals': 'shared' if shared else 'per function', 'result': str(res), 'problems': probs[:4]},
-                                 {'op': opn})
+            # same-named parameters (merge): which side an annotation comes from is not fixed by the property; what is
+            # checked is that an unannotated result parameter denotes nothing and that evaluated() agrees with source_value()
+            probs = (resolution_problems(res, lambda n: f1 if n in names1 else f2, f1) if not same_names
+                     else resolution_problems(res, lambda n: None, None))
+            if probs:
+                st.violation('annotation-resolves-outside-its-defining-context', case,
+                             {'operation': opn, 'first': '%s def f1%s' % ('postponed' if mode[0] else 'eager', inspect.signature(f1)),
+                              'second': '%s def f2%s' % ('postponed' if mode[1] else 'eager', inspect.signature(f2)),
+                              'globals': 'shared' if shared else 'per function', 'result': str(res), 'problems': probs[:4]},
+                             {'op': opn})
             try:
                 results.setdefault(key, {})[mode] = ('ok', render(res))
             except Exception as e:  # noqa
@@ -181,7 +214,7 @@ def _unary_case(opn, fn, f, status, res, shape, pattern, future, named, V, resul
     def origin(n, opn=opn, f=f, V=V):
         if opn.startswith('annotate') or opn.endswith('annotate') or 'annotate' in opn:
             if named and n == named[-1][0] and 'ret' not in opn:
-                return V
+                return 'T' if opn == 'annotate-str' else V
         return f
     ret_origin = V if opn == 'annotate-ret' else f
     probs = resolution_problems(res, origin, ret_origin)
@@ -223,6 +256,7 @@ def eval_unary(shape, pattern, st):
             last = named[-1][0]
             ops.append(('annotate-param', lambda f, last=last, V=V: sigtools.signature(M.annotate(**{last: V})(f))))
             ops.append(('annotate-ret', lambda f, V=V: sigtools.signature(M.annotate(V)(f))))
+            ops.append(('annotate-str', lambda f, last=last: sigtools.signature(M.annotate(**{last: 'T'})(f))))
             if poks:
                 ops.append(('annotate-then-kwoargs', lambda f, last=last, V=V: sigtools.signature(
                     M.kwoargs(poks[-1])(M.annotate(**{last: V})(f)))))
@@ -312,7 +346,7 @@ def shard(tier, sh):
     if kind == 'unary':
         shapes = [s for s in space.universe(2, 'ab') if space.name_sorted(s)]
         for shape in shapes[sh[1]:sh[2]]:
-            for pattern in PATTERNS + ('all',):
+            for pattern in PATTERNS + ('all', 'strlit'):
                 st.inc('states')
                 eval_unary(shape, pattern, st)
         return st
